@@ -6,7 +6,9 @@ these functions is proved in Proofs/RoundTripLang.lean and Proofs/RoundTripTyped
   * `TokClass`, `classify`      coarse class of a fragment text;
   * `TC`, `sig`                 boundary signature of a fragment text: the class plus what the separator decision
                                 (`required_space`) and longest-match lexing can see of its first / last character;
-  * `Sym`                       what a chunk of the walk is abstracted to: a token signature or a layout marker;
+  * `Sym`                       what a chunk of the walk is abstracted to: a token signature or a layout marker,
+                                coded as a natural number < 256; sets of symbols are bit sets (`SymSet`) so that the
+                                kernel decides the closure checks with a few hundred big-number operations;
   * `Abs`, `absRule`, `absRules` abstract interpretation of a definition over a slot typing `SlotTy` of the
                                 attributes and a certificate `cert` (first / last symbol sets per node kind);
                                 `need` collects the pairs of symbols that can be adjacent (the follow relation).
@@ -26,11 +28,27 @@ open CalmVerif CalmVerif.Unparse
 def charKind (c : Char) : Nat :=
   if spaceClassOf c == spaceClassOf 'a' then 0
   else if c == '$' then 1
-  else if inRanges c.toNat Gen.LexData.idPart then 2
+  else if c.toNat < 128 then 3
+  else if inRanges c.toNat Gen.LexData.idPart || inRanges c.toNat Gen.LexData.idStart then 2
   else 3
 
-def isIdStart (c : Char) : Bool := inRanges c.toNat Gen.LexData.idStart
-def isIdPart (c : Char) : Bool := inRanges c.toNat Gen.LexData.idPart
+/-- the ASCII part of the lexer's identifier tables (fast path; `ascii_tables_agree` in Proofs/RoundTripSafe.lean
+decides that it agrees with Gen.LexData on every code point below 128) -/
+def idStartAscii : List (Nat × Nat) := [(36, 36), (65, 90), (95, 95), (97, 122)]
+def idPartAscii : List (Nat × Nat) := [(36, 36), (48, 57), (65, 90), (95, 95), (97, 122)]
+def isIdStart (c : Char) : Bool :=
+  if c.toNat < 128 then inRanges c.toNat idStartAscii else inRanges c.toNat Gen.LexData.idStart
+/-- the lexer's `identifier_part` table (for non-ASCII code points it holds only the marks, digits and connectors:
+the identifier regex of the lexer is `identifier_start+ identifier_part*`) -/
+def isIdPart (c : Char) : Bool :=
+  if c.toNat < 128 then inRanges c.toNat idPartAscii else inRanges c.toNat Gen.LexData.idPart
+/-- a character that can continue an identifier token -/
+def isIdAny (c : Char) : Bool := isIdStart c || isIdPart c
+
+/-- the lexer's identifier: a non-empty run of start characters followed by a run of part characters -/
+def wordTail : List Char → Bool
+  | [] => true
+  | c :: cs => if isIdStart c then wordTail cs else (c :: cs).all isIdPart
 def isDigit (c : Char) : Bool := '0' ≤ c && c ≤ '9'
 
 /-! ### token classes -/
@@ -42,7 +60,7 @@ inductive TokClass where
 
 /-- boundary signature of a printed fragment -/
 inductive TC where
-  | lit (s : String)            -- exact text: punctuators, reserved words, the constant `var `
+  | lit (i : Nat)               -- exact text `litTable[i]`: punctuators, reserved words, the constant `var `
   | word (f l : Nat)            -- identifier-like word; `charKind` of its first and last character
   | decInt                      -- `0` or `[1-9][0-9]*`
   | numDot                      -- number spelling ending in `.`
@@ -79,14 +97,31 @@ def sigChars (cs : List Char) : TC :=
       if isDecIntChars (c :: rest) then .decInt else if last == '.' then .numDot else .num false
     else if c == '.' && (rest.head?.map isDigit).getD false then .num true
     else if (c :: rest).all (· == ',') then .commas
-    else if isIdStart c && rest.all isIdPart then .word (charKind c) (charKind last)
+    else if isIdStart c && wordTail rest then .word (charKind c) (charKind last)
     else .other
 
-def sig (s : String) : TC := if litTable.contains s then .lit s else sigChars s.toList
+/-- index of a spelling in a table (explicit recursion: cheap in the kernel) -/
+def idxIn (s : String) : List String → Nat → Option Nat
+  | [], _ => none
+  | t :: ts, i => if t == s then some i else idxIn s ts (i + 1)
+
+def litIdx (s : String) : Option Nat := idxIn s litTable 0
+
+/-- the spelling a `lit` signature stands for -/
+def litText (i : Nat) : String := litTable.getD i ""
+
+/-- the exact signature of a table spelling (`other` for a spelling that is not in the table) -/
+def mkLit (s : String) : TC := match litIdx s with
+  | some i => .lit i
+  | none => .other
+
+def sig (s : String) : TC := match litIdx s with
+  | some i => .lit i
+  | none => sigChars s.toList
 
 def classify (s : String) : TokClass :=
   match sig s with
-  | .lit t => if punctuators.contains t then .punct t else .keyword
+  | .lit i => if punctuators.contains (litText i) then .punct (litText i) else .keyword
   | .word _ _ => .word
   | .decInt => .decInt
   | .numDot => .numDot
@@ -101,33 +136,83 @@ def classify (s : String) : TokClass :=
 
 /-! ### symbols and abstract summaries -/
 
-inductive Sym where
-  | t (c : TC)
-  /-- a layout chunk: its marker and whether its node is one of `headerKinds` (If/For/ForIn/While) -/
-  | m (mk : Marker) (hdr : Bool)
-  deriving DecidableEq, Repr, Inhabited
+/-- a symbol, coded as a number below 256: `2·code` for a token signature, `2·code + 1` for a layout chunk -/
+abbrev Sym := Nat
+
+def tcCode : TC → Nat
+  | .lit i => 32 + i
+  | .word f l => 1 + 4 * (min f 1) + (min l 3)
+  | .decInt => 9
+  | .numDot => 10
+  | .num false => 11
+  | .num true => 12
+  | .str => 13
+  | .regex l => 14 + (min l 3)
+  | .lineComment => 18
+  | .blockComment => 19
+  | .commas => 20
+  | .empty => 21
+  | .other => 22
+
+/-- a representative signature of a token code (inverse of `tcCode` on the canonical signatures) -/
+def tcOfCode (c : Nat) : TC :=
+  if 32 ≤ c then .lit (c - 32)
+  else if 1 ≤ c && c ≤ 8 then .word ((c - 1) / 4) ((c - 1) % 4)
+  else if c == 9 then .decInt else if c == 10 then .numDot else if c == 11 then .num false
+  else if c == 12 then .num true else if c == 13 then .str
+  else if 14 ≤ c && c ≤ 17 then .regex (c - 14)
+  else if c == 18 then .lineComment else if c == 19 then .blockComment else if c == 20 then .commas
+  else if c == 21 then .empty else .other
+
+def markerCode : Marker → Nat
+  | .OpenBlock => 0 | .CloseBlock => 1 | .EndStatement => 2 | .Space => 3 | .OptionalSpace => 4 | .RequiredSpace => 5
+  | .Newline => 6 | .OptionalNewline => 7 | .Indent => 8 | .Dedent => 9
+  | .PushScope => 10 | .PopScope => 11 | .PushCatch => 12 | .PopCatch => 13 | .ResolveFuncName => 14
+
+/-- the symbol of a token fragment with signature `c` -/
+def Sym.t (c : TC) : Sym := 2 * tcCode c
+/-- the symbol of a layout chunk: its marker and whether its node is one of `headerKinds` (If/For/ForIn/While) -/
+def Sym.m (mk : Marker) (hdr : Bool) : Sym := 2 * (2 * markerCode mk + (if hdr then 1 else 0)) + 1
 
 def symOf (hd : HData) : Chunk → Sym
-  | .frag f => .t (sig f.text)
-  | .layout mk _ n => .m mk (isKind hd.headerKinds n)
+  | .frag f => Sym.t (sig f.text)
+  | .layout mk _ n => Sym.m mk (isKind hd.headerKinds n)
 
 def syms (hd : HData) (cs : List Chunk) : List Sym := cs.map (symOf hd)
+
+/-- a set of symbols as a bit set -/
+structure SymSet where
+  bits : Nat
+  deriving DecidableEq, Repr, Inhabited
+
+def SymSet.has (s : SymSet) (x : Sym) : Bool := s.bits.testBit x
+instance : Membership Sym SymSet := ⟨fun s x => s.has x = true⟩
+def SymSet.empty : SymSet := ⟨0⟩
+def SymSet.single (x : Sym) : SymSet := ⟨1 <<< x⟩
+def SymSet.union (a b : SymSet) : SymSet := ⟨a.bits ||| b.bits⟩
+instance : Append SymSet := ⟨SymSet.union⟩
+def SymSet.ofList : List Sym → SymSet
+  | [] => SymSet.empty
+  | x :: xs => SymSet.single x ++ SymSet.ofList xs
+def SymSet.subset (a b : SymSet) : Bool := (a.bits ||| b.bits) == b.bits
 
 /-- summary of a set of symbol strings: may be empty; possible first symbols; possible last symbols -/
 structure Abs where
   n : Bool
-  f : List Sym
-  l : List Sym
-  deriving Repr, Inhabited
+  f : SymSet
+  l : SymSet
+  deriving DecidableEq, Repr, Inhabited
 
-def Abs.empty : Abs := ⟨true, [], []⟩
-def Abs.ofSyms (ss : List Sym) : Abs := ⟨false, ss, ss⟩
+def Abs.empty : Abs := ⟨true, SymSet.empty, SymSet.empty⟩
+def Abs.ofSyms (ss : List Sym) : Abs := ⟨false, SymSet.ofList ss, SymSet.ofList ss⟩
 def Abs.seq (a b : Abs) : Abs :=
-  ⟨a.n && b.n, a.f ++ (if a.n then b.f else []), b.l ++ (if b.n then a.l else [])⟩
+  ⟨a.n && b.n, a.f ++ (if a.n then b.f else SymSet.empty), b.l ++ (if b.n then a.l else SymSet.empty)⟩
 def Abs.alt (a b : Abs) : Abs := ⟨a.n || b.n, a.f ++ b.f, a.l ++ b.l⟩
 def Abs.opt (a : Abs) : Abs := ⟨true, a.f, a.l⟩
+/-- a rectangle of the follow relation: every symbol of `.1` may be directly followed by every symbol of `.2` -/
+abbrev Rect := SymSet × SymSet
 /-- the pairs (last of `a`, first of `b`) that become adjacent when `b` follows `a` -/
-def cross (a b : Abs) : List (Sym × Sym) := a.l.flatMap (fun x => b.f.map (fun y => (x, y)))
+def cross (a b : Abs) : List Rect := [(a.l, b.f)]
 
 /-- what an attribute of a node kind may hold (certificate; `wfVal` checks a tree against it) -/
 inductive SlotTy where
@@ -140,7 +225,7 @@ inductive SlotTy where
 
 structure Res where
   abs : Abs
-  need : List (Sym × Sym)
+  need : List Rect
   bad : Bool
   deriving Repr, Inhabited
 
@@ -161,7 +246,7 @@ def certOf (cx : Ctx) (k : String) : Option Abs := (cx.cert.find? (fun p => p.1 
 
 /-- union of the certificates of the kinds (fails on a kind without certificate) -/
 def kindsRes (cx : Ctx) : List String → Res
-  | [] => ⟨⟨false, [], []⟩, [], false⟩
+  | [] => ⟨⟨false, SymSet.empty, SymSet.empty⟩, [], false⟩
   | k :: ks =>
     match certOf cx k with
     | some a => let r := kindsRes cx ks; ⟨a.alt r.abs, [], r.bad⟩
@@ -184,7 +269,7 @@ def srcRes (cx : Ctx) (K : String) : AttrSrc → Res
   | .literal =>
     -- the Literal handler may strip line continuations: only the class `str` is stable under it
     match cx.slot K "value" with
-    | .tok [.str] => Res.ok (Abs.ofSyms [.t .str])
+    | .tok [.str] => Res.ok (Abs.ofSyms [Sym.t .str])
     | _ => Res.fail
   | .lineComment => let r := slotRes cx (cx.slot K "value"); ⟨r.abs.opt, [], r.bad⟩
   | .blockComment => let r := slotRes cx (cx.slot K "value"); ⟨r.abs.opt, [], r.bad⟩
@@ -201,14 +286,14 @@ mutual
   def absRule (cx : Ctx) (K : String) : Rule → Res
     | .layout mk =>
       match lookupLayout cx.tbl (LKey.single mk) with
-      | some _ => Res.ok (Abs.ofSyms [.m mk (cx.hdr.contains K)])
+      | some _ => Res.ok (Abs.ofSyms [Sym.m mk (cx.hdr.contains K)])
       | none => Res.ok Abs.empty
     | .struct _ => Res.ok Abs.empty
-    | .text v _ => Res.ok (Abs.ofSyms [.t (sig v)])
+    | .text v _ => Res.ok (Abs.ofSyms [Sym.t (sig v)])
     | .attr src _ => srcRes cx K src
     | .commentsAttr src _ => srcRes cx K src
     | .operator (some a) _ _ => srcRes cx K (.name a)
-    | .operator none (some v) _ => Res.ok (Abs.ofSyms [.t (sig v)])
+    | .operator none (some v) _ => Res.ok (Abs.ofSyms [Sym.t (sig v)])
     | .operator none none _ => Res.ok Abs.empty
     | .optional _ body => let r := absRules cx K body; ⟨r.abs.opt, r.need, r.bad⟩
     | .joinAttr src sep _ =>
@@ -221,7 +306,7 @@ mutual
         ⟨(i.abs.seq ⟨true, p.f, p.l⟩).opt, s.need ++ cross s.abs i.abs ++ cross p p ++ cross i.abs p, i.bad || s.bad⟩
     | .elisionToken (.name a) v _ =>
       match cx.slot K a with
-      | .int1 => if v == "," then Res.ok (Abs.ofSyms [.t (.lit ","), .t .commas]) else Res.fail
+      | .int1 => if v == "," then Res.ok (Abs.ofSyms [Sym.t (mkLit ","), Sym.t .commas]) else Res.fail
       | _ => Res.fail
     | .elisionToken _ _ _ => Res.fail
     | .elisionJoinAttr src sep _ =>
@@ -232,8 +317,8 @@ mutual
         let ix := kindsRes cx (ks.filter (fun k => !cx.elisionKinds.contains k))
         let ie := kindsRes cx (ks.filter (fun k => cx.elisionKinds.contains k))
         let s := absRules cx K sep
-        let mf := s.abs.f ++ (if s.abs.n then ix.abs.f else []) ++ ie.abs.f
-        let m : Abs := ⟨false, mf, []⟩
+        let mf := s.abs.f ++ (if s.abs.n then ix.abs.f else SymSet.empty) ++ ie.abs.f
+        let m : Abs := ⟨false, mf, SymSet.empty⟩
         ⟨⟨true, ix.abs.f ++ ie.abs.f, ix.abs.l ++ ie.abs.l⟩,
          s.need ++ cross ix.abs e ++ cross e m ++ cross s.abs ix.abs ++ cross ie.abs m,
          ix.bad || ie.bad || s.bad || e.n || ix.abs.n || ie.abs.n⟩
@@ -280,18 +365,18 @@ end
 
 def subList {α : Type} [BEq α] (a b : List α) : Bool := a.all b.contains
 
-def Abs.le (a b : Abs) : Bool := (!a.n || b.n) && subList a.f b.f && subList a.l b.l
+def Abs.le (a b : Abs) : Bool := (!a.n || b.n) && a.f.subset b.f && a.l.subset b.l
 
 /-- the closure check of the certificate: every definition's summary is below its certificate, every pair of
 symbols that can become adjacent inside it is in `F`, and nothing unsupported was met -/
-def closedDef (cx : Ctx) (F : List (Sym × Sym)) (kd : String × List Rule) : Bool :=
+def closedDef (cx : Ctx) (F : List Rect) (kd : String × List Rule) : Bool :=
   let r := absRules cx kd.1 kd.2
   !r.bad && subList r.need F &&
     (match certOf cx kd.1 with
      | some a => r.abs.le a
      | none => false)
 
-def closed (cx : Ctx) (F : List (Sym × Sym)) (defs : Defs) : Bool := defs.all (closedDef cx F)
+def closed (cx : Ctx) (F : List Rect) (defs : Defs) : Bool := defs.all (closedDef cx F)
 
 end CalmVerif.TokenAdj
 
@@ -307,7 +392,7 @@ def exprKinds : List String := ["Identifier", "Number", "String", "Regex", "Bool
 def stmtKinds : List String := ["Block", "VarStatement", "EmptyStatement", "ExprStatement", "If", "For", "ForIn", "While",
   "DoWhile", "Continue", "Break", "Return", "With", "Label", "Switch", "Throw", "Try", "Debugger", "FuncDecl"]
 def wordSigs : List TC := [.word 0 0, .word 0 1, .word 0 2, .word 1 0, .word 1 1, .word 1 2]
-def lits (l : List String) : List TC := l.map TC.lit
+def lits (l : List String) : List TC := l.map mkLit
 def binaryOps : List String := ["||", "&&", "|", "^", "&", "==", "!=", "===", "!==", "<", ">", "<=", ">=", "instanceof", "in",
   "<<", ">>", ">>>", "+", "-", "*", "/", "%"]
 def assignOps : List String := ["=", "+=", "-=", "*=", "/=", "%=", "<<=", ">>=", ">>>=", "&=", "|=", "^=", ":"]
@@ -409,12 +494,6 @@ def es5Slot (k a : String) : SlotTy :=
   | "BlockComment", "value" => .tok [.blockComment]
   | _, _ => .any
 
-def dedup {α : Type} [BEq α] : List α → List α
-  | [] => []
-  | x :: xs => let r := dedup xs; if r.contains x then r else x :: r
-
-def Abs.norm (a : Abs) : Abs := ⟨a.n, dedup a.f, dedup a.l⟩
-
 def mkCtx (rs : RuleSet) (cert : List (String × Abs)) : Ctx where
   tbl := rs.layout
   hdr := Gen.Rules.headerKinds
@@ -425,15 +504,11 @@ def mkCtx (rs : RuleSet) (cert : List (String × Abs)) : Ctx where
 
 /-- one round of the fixpoint iteration: the summary of every definition under the current certificate -/
 def certStep (rs : RuleSet) (defs : Defs) (cert : List (String × Abs)) : List (String × Abs) :=
-  defs.map (fun kd => (kd.1, (absRules (mkCtx rs cert) kd.1 kd.2).abs.norm))
+  defs.map (fun kd => (kd.1, (absRules (mkCtx rs cert) kd.1 kd.2).abs))
 
 def certIter (rs : RuleSet) (defs : Defs) : Nat → List (String × Abs)
-  | 0 => defs.map (fun kd => (kd.1, ⟨false, [], []⟩))
+  | 0 => defs.map (fun kd => (kd.1, ⟨false, SymSet.empty, SymSet.empty⟩))
   | n + 1 => certStep rs defs (certIter rs defs n)
-
-/-- all pairs of symbols that can become adjacent under the certificate -/
-def followOf (rs : RuleSet) (defs : Defs) (cert : List (String × Abs)) : List (Sym × Sym) :=
-  dedup (defs.flatMap (fun kd => (absRules (mkCtx rs cert) kd.1 kd.2).need))
 
 end CalmVerif.TokenAdj
 
@@ -441,7 +516,7 @@ namespace CalmVerif.TokenAdj
 open CalmVerif CalmVerif.Unparse
 
 /-- the follow relation as the plain concatenation of all `need` lists (never evaluated by the closure check) -/
-def allNeeds (cx : Ctx) (defs : Defs) : List (Sym × Sym) := defs.flatMap (fun kd => (absRules cx kd.1 kd.2).need)
+def allNeeds (cx : Ctx) (defs : Defs) : List Rect := defs.flatMap (fun kd => (absRules cx kd.1 kd.2).need)
 
 /-- the part of the closure check that does not hold by construction of `allNeeds` -/
 def closedCertDef (cx : Ctx) (kd : String × List Rule) : Bool :=
@@ -451,5 +526,82 @@ def closedCertDef (cx : Ctx) (kd : String × List Rule) : Bool :=
      | none => false)
 
 def closedCert (cx : Ctx) (defs : Defs) : Bool := defs.all (closedCertDef cx)
+
+end CalmVerif.TokenAdj
+
+namespace CalmVerif.TokenAdj
+open CalmVerif CalmVerif.Unparse
+
+/-! ### a variant of `absRules` whose intermediate summaries are forced to literals
+(the kernel evaluates by name: without forcing, every rectangle of `need` re-evaluates the summary of the rest of
+its definition).  `absRulesF_eq` (Proofs/RoundTripCert.lean) proves it equal to `absRules`. -/
+
+def withNat {α : Type} (n : Nat) (k : Nat → α) : α :=
+  match n with
+  | 0 => k 0
+  | m + 1 => k (m + 1)
+
+def withBool {α : Type} (b : Bool) (k : Bool → α) : α :=
+  match b with
+  | true => k true
+  | false => k false
+
+def Abs.forced {α : Type} (a : Abs) (k : Abs → α) : α :=
+  withBool a.n fun n => withNat a.f.bits fun f => withNat a.l.bits fun l => k ⟨n, ⟨f⟩, ⟨l⟩⟩
+
+mutual
+  def absRuleF (cx : Ctx) (K : String) : Rule → Res
+    | .optional _ body => let r := absRulesF cx K body; ⟨r.abs.opt, r.need, r.bad⟩
+    | .joinAttr src sep _ =>
+      match itemKinds cx K src with
+      | none => Res.fail
+      | some ks =>
+        let i := kindsRes cx ks
+        let s := absRulesF cx K sep
+        let p := s.abs.seq i.abs
+        ⟨(i.abs.seq ⟨true, p.f, p.l⟩).opt, s.need ++ cross s.abs i.abs ++ cross p p ++ cross i.abs p, i.bad || s.bad⟩
+    | .elisionJoinAttr src sep _ =>
+      match itemKinds cx K src, certOf cx cx.esep with
+      | some ks, some e =>
+        let ix := kindsRes cx (ks.filter (fun k => !cx.elisionKinds.contains k))
+        let ie := kindsRes cx (ks.filter (fun k => cx.elisionKinds.contains k))
+        let s := absRulesF cx K sep
+        let mf := s.abs.f ++ (if s.abs.n then ix.abs.f else SymSet.empty) ++ ie.abs.f
+        let m : Abs := ⟨false, mf, SymSet.empty⟩
+        ⟨⟨true, ix.abs.f ++ ie.abs.f, ix.abs.l ++ ie.abs.l⟩,
+         s.need ++ cross ix.abs e ++ cross e m ++ cross s.abs ix.abs ++ cross ie.abs m,
+         ix.bad || ie.bad || s.bad || e.n || ix.abs.n || ie.abs.n⟩
+      | _, _ => Res.fail
+    | .layout mk => absRule cx K (.layout mk)
+    | .struct mk => absRule cx K (.struct mk)
+    | .text v p => absRule cx K (.text v p)
+    | .attr s p => absRule cx K (.attr s p)
+    | .commentsAttr s p => absRule cx K (.commentsAttr s p)
+    | .operator a v p => absRule cx K (.operator a v p)
+    | .elisionToken s v p => absRule cx K (.elisionToken s v p)
+  def absRulesF (cx : Ctx) (K : String) : List Rule → Res
+    | [] => Res.ok Abs.empty
+    | r :: rs =>
+      match absRuleF cx K r, absRulesF cx K rs with
+      | ⟨aabs, aneed, abad⟩, ⟨babs, bneed, bbad⟩ =>
+        aabs.forced fun a => babs.forced fun b => ⟨a.seq b, aneed ++ cross a b ++ bneed, abad || bbad⟩
+end
+
+def allNeedsF (cx : Ctx) (defs : Defs) : List Rect := defs.flatMap (fun kd => (absRulesF cx kd.1 kd.2).need)
+
+end CalmVerif.TokenAdj
+
+namespace CalmVerif.TokenAdj
+open CalmVerif CalmVerif.Unparse
+
+/-- the certificate with every summary forced to literals, handed to a continuation (so that the kernel looks
+certificates up in a table of numbers instead of re-running the earlier rounds of the iteration) -/
+def forceCert {α : Type} : List (String × Abs) → (List (String × Abs) → α) → α
+  | [], k => k []
+  | (s, a) :: rest, k => a.forced fun a' => forceCert rest fun rest' => k ((s, a') :: rest')
+
+def withCert {α : Type} (rs : RuleSet) (defs : Defs) : Nat → (List (String × Abs) → α) → α
+  | 0, k => k (certIter rs defs 0)
+  | n + 1, k => withCert rs defs n fun c => forceCert (certStep rs defs c) k
 
 end CalmVerif.TokenAdj
